@@ -14,7 +14,7 @@ func init() {
 		id: "C18",
 		li: levelInfo{
 			Level:       "other",
-			Explanation: "Static analysis of the SCAN cursor codec and dispatcher. R1 (exhaustive for the codec): the SSA of the cursor composer and parser is interpreted over GF(2)-affine bit forms in the 16 node-index bits and the 48 low node-cursor bits; parse(compose(idx,c)) must be the identity bit-matrix, i.e. for every 16-bit index and every cursor < 2^48. R2: every index/slice of the node list in the scan handler has a zone witness (index < len) and the complementary branch completes the request with the terminal reply constant [\"0\", []]. R3: the node index is incremented exactly on the branch next-cursor == 0 and the new cursor is composed from the updated index. R4: the rewrite stores only into request argument 1 and reply element 0. R5: the node list is the sorted usable-host snapshot. R6: the reply hook indexes element 0 only with a length witness. Key coverage itself is the backend's SCAN contract and is not decided. R5 also: the shared healthy-hosts snapshot is never written or sorted in place (shared with C15.R9). R7: hook order - the cursor rewrite of the reply runs before the hook that completes the client-facing request (execution order read from the loop in SetResponse). R4 also: an in-place append into a decoded text requires capacity-limited slab slices. R8: no object that is given back to a sync.Pool is still captured by a registered completion hook. Hooks may be method values. R4 covers the whole SCAN path: constructor and handler never store into the client request. R9: MakeRequestToHost looks the connection up for its own address parameter only. R10 (shared with C15.R7): the previous object of a re-announced address is purged from the healthy tiers before the new one is inserted.",
+			Explanation: "Static analysis of the SCAN cursor codec and dispatcher. R1 (exhaustive for the codec): the SSA of the cursor composer and parser is interpreted over GF(2)-affine bit forms in the 16 node-index bits and the 48 low node-cursor bits; parse(compose(idx,c)) must be the identity bit-matrix, i.e. for every 16-bit index and every cursor < 2^48. R2: every index/slice of the node list in the scan handler has a zone witness (index < len) and the complementary branch completes the request with the terminal reply constant [\"0\", []]. R3: the node index is incremented exactly on the branch next-cursor == 0 and the new cursor is composed from the updated index. R4: the rewrite stores only into request argument 1 and reply element 0. R5: the node list is the sorted usable-host snapshot. R6: the reply hook indexes element 0 only with a length witness. Key coverage itself is the backend's SCAN contract and is not decided. R5 also: the shared healthy-hosts snapshot is never written or sorted in place (shared with C15.R9). R7: hook order - the cursor rewrite of the reply runs before the hook that completes the client-facing request (execution order read from the loop in SetResponse). R4 also: an in-place append into a decoded text requires capacity-limited slab slices. R8: no object that is given back to a sync.Pool is still captured by a registered completion hook. Hooks may be method values. R4 covers the whole SCAN path: constructor and handler never store into the client request. R9: MakeRequestToHost looks the connection up for its own address parameter only. R10 (shared with C15.R7): the previous object of a re-announced address is purged from the healthy tiers before the new one is inserted. R11 (shared with C08.R10): every host event is handed to the host set on every path.",
 			Assumptions: []string{"decimal text <-> integer conversion (strconv.FormatUint / btoi64) round-trips", "node cursors handed out by backends are below 2^48 (the property's own premise)", "x + const does not overflow (zone domain)"},
 			TrustedBase: []string{"go/ssa", "samlint ebits.go", "samlint ebounds.go + zone.go"},
 		},
